@@ -19,7 +19,7 @@ DIGITS = b'0123456789abcdefghijklmnopqrstuvwxyz'
 RULE = ('strings: canonical numerals of structured values (incl. MAX, MAX+1, MIN, MIN-1) in every radix 2..=36, mutated with 0..3x '
         'capacity leading zeros, +/- prefixes, case changes, one digit >= radix, a second sign, ASCII space / underscore, non-ASCII '
         'UTF-8 (full-width digits, accents, emoji), invalid UTF-8, lengths straddling the chunk size and the digit capacity, the empty '
-        'string and lone signs; out-of-range radices. Digit slices for radix 2..=256 in both orders with the same mutations. Validity is '
+        'string and lone signs; every byte value 0..=255 in every radix in five string shapes (on the three-digit type of each digit size); out-of-range radices. Digit slices for radix 2..=256 in both orders with the same mutations. Validity is '
         'decided by an explicit grammar check in the monitor (not Python int()). Non-trivial: leading zeros, sign, boundary value, '
         'overflow, invalid input, chunk/capacity boundary length; distinct = distinct request lines')
 
@@ -206,6 +206,15 @@ def requests(cfg, rng, n, tier, part, nparts, st):
             yield 'pd', (bytes(ds), r)
             yield 'pd', (bytes([0] * (len(ds) + 1) + ds), r)
             yield 'pd', (bytes(to_digits(cfg.mask + 1, r)), r)
+    if part == 0 and cfg.n == 3 and not st.get('no_sweeps'):
+        # every byte value 0..=255 in every string radix, alone, next to a valid digit, inside a 17-character numeral and as an aligned run of eight at the
+        # most significant end (character classification by arithmetic tricks or word-at-a-time scanning must reject exactly the non-digits)
+        for r in range(2, 37):
+            for b in range(256):
+                c = bytes([b])
+                for x in (c, b'1' + c, c + b'1', b'11111111' + c + b'11111111', c * 8 + b'1'):
+                    yield 'ps', (x, r)
+        st['exhaustive'].append('%s: every byte value 0..=255 x every radix 2..=36 in 5 string shapes' % cfg.name)
     # bounded by the budget of the configuration: every bit length when affordable, otherwise a seed-dependent stride
     if cfg.bits == 8:
         # every string of length <= 4 over a small alphabet (signs, digits, letters, space, underscore) in four radices
